@@ -196,4 +196,46 @@ def specShortestPoints (G : M3 Rat) (d : V3 Rat) : List (V3 Int) :=
 def specShortest (G : M3 Rat) (d : V3 Rat) : List (V3 Rat) :=
   (specShortestPoints G d).map (fun n => d + n.toRat)
 
+/-! ### a per-lattice certificate of window completeness (all separations in `[-1/2,1/2]³` at once)
+
+`Q(d+n) − Q(d+n−e) = 2·eᵀG(d+n) − Q(e)` is linear in `d`; over the cube it is at least
+`stepGain G n e = 2·eᵀGn − Q(e) − ‖Ge‖₁`.  If for every lattice point `n` of the finite box that is
+not a search point some neighbour step `e` has positive gain, no such `n` can be a minimum image for
+any reduced separation, and points outside the box are too long (`Props/C05.lean`). -/
+
+def absR (q : Rat) : Rat := if q < 0 then -q else q
+
+/-- an upper bound of `len2 G d` over the cube `|d_i| ≤ 1/2` -/
+def cubeRho2 (G : M3 Rat) : Rat :=
+  (absR G.a00 + absR G.a01 + absR G.a02 + absR G.a10 + absR G.a11 + absR G.a12 + absR G.a20 + absR G.a21 + absR G.a22) / 4
+
+def symRange (R : Nat) : List Int := (List.range (2 * R + 1)).map fun (k : Nat) => (k : Int) - (R : Int)
+
+/-- all lattice translations that can give an image no longer than some `d` in the cube -/
+def cubeBox (G : M3 Rat) : List (V3 Int) :=
+  let rho2 := cubeRho2 G
+  let A := G.adj
+  (symRange (radius G rho2 A.a00)).flatMap fun nx =>
+    (symRange (radius G rho2 A.a11)).flatMap fun ny =>
+      (symRange (radius G rho2 A.a22)).map fun nz => (⟨nx, ny, nz⟩ : V3 Int)
+
+def neighbours26 : List (V3 Int) :=
+  (lattice1D.flatMap fun i => lattice1D.flatMap fun j => lattice1D.map fun k => (⟨i, j, k⟩ : V3 Int)).filter
+    (fun e => e != ⟨0, 0, 0⟩)
+
+def stepGain (G : M3 Rat) (n e : V3 Int) : Rat :=
+  let ge := G.mulVec e.toRat
+  2 * V3.dot ge n.toRat - V3.dot e.toRat ge - (absR ge.x + absR ge.y + absR ge.z)
+
+def windowCert (G : M3 Rat) (W : List (V3 Int)) : Bool :=
+  (cubeBox G).all fun n => W.contains n || neighbours26.any fun e => decide (0 < stepGain G n e)
+
+/-- the reduction conditions spglib's Niggli reduction aims at (main conditions): ordered diagonal,
+`|2 g_ij| ≤ min(g_ii, g_jj)`, off-diagonal entries all positive or all non-positive -/
+def wellReduced (G : M3 Rat) : Bool :=
+  decide (G.a00 ≤ G.a11) && decide (G.a11 ≤ G.a22) &&
+  decide (2 * absR G.a01 ≤ G.a00) && decide (2 * absR G.a02 ≤ G.a00) && decide (2 * absR G.a12 ≤ G.a11) &&
+  ((decide (0 < G.a01) && decide (0 < G.a02) && decide (0 < G.a12)) ||
+   (decide (G.a01 ≤ 0) && decide (G.a02 ≤ 0) && decide (G.a12 ≤ 0)))
+
 end PhononModel.ShortestPairs
